@@ -1,8 +1,134 @@
 import PyPhysim.Model.Proto
-open PyPhysim.Proto
+import PyPhysim.Model.C19
+import PyPhysim.Model.C19Cluster
+open PyPhysim.Proto PyPhysim.C19
 
--- stub: replaced when the C19 model is written
-def handle : List String → String
+instance : NatCast Float := ⟨Float.ofNat⟩
+
+/-- what the harness can ask about one shape object -/
+structure ShapeM where
+  pos : Pt Float
+  radius : Float
+  verts : List (Pt Float)
+  inside : Pt Float → Bool
+  border : Pt Float → Float → Except PyErr (Pt Float)
+
+def polyShape (pos : Pt Float) (radius : Float) (verts : List (Pt Float)) : ShapeM :=
+  { pos := pos, radius := radius, verts := verts, inside := pnpoly verts,
+    border := fun d ratio => borderPoint pos verts d ratio }
+
+def rectShape (r : Rect Float) (radius : Float) (u : Pt Float) : ShapeM :=
+  let verts := place r.pos u (rectVerts r)
+  { pos := r.pos, radius := radius, verts := verts, inside := rectInside r u,
+    border := fun d ratio => borderPoint r.pos verts d ratio }
+
+/-- `<kind> <numbers…>`; returns the shape and the remaining tokens -/
+def parseShape : List String → Option (ShapeM × List String)
+  | "hex" :: r :: rt :: px :: py :: rest => do
+      let r ← parseFloat? r; let rt ← parseFloat? rt; let px ← parseFloat? px; let py ← parseFloat? py
+      some (polyShape (px, py) r (place (px, py) (Circ.cisDeg rt) (hexVerts r)), rest)
+  | "sec3" :: r :: rt :: px :: py :: rest => do
+      let r ← parseFloat? r; let rt ← parseFloat? rt; let px ← parseFloat? px; let py ← parseFloat? py
+      some (polyShape (px, py) r (place (px, py) (Circ.cisDeg rt) (sec3Verts r)), rest)
+  | "sector" :: r :: rt :: px :: py :: k :: rest => do     -- sector k (0,1,2) of a Cell3Sec
+      let r ← parseFloat? r; let rt ← parseFloat? rt; let px ← parseFloat? px; let py ← parseFloat? py
+      let k ← k.toNat?
+      let c ← (secCentres r)[k]?
+      let centre := padd (px, py) (rot (Circ.cisDeg rt) c)
+      -- `Cell(sec_position, secradius, rotation = rotation - 30)`
+      some (polyShape centre (secRadius r) (place centre (Circ.cisDeg (rt - 30.0)) (hexVerts (secRadius r))), rest)
+  | "rect" :: fx :: fy :: sx :: sy :: rt :: rest => do
+      let fx ← parseFloat? fx; let fy ← parseFloat? fy; let sx ← parseFloat? sx; let sy ← parseFloat? sy
+      let rt ← parseFloat? rt
+      let r := mkRect (fx, fy) (sx, sy)
+      some (rectShape r (dist r.pos (sx, sy)) (Circ.cisDeg rt), rest)
+  | "square" :: side :: rt :: px :: py :: rest => do
+      let side ← parseFloat? side; let rt ← parseFloat? rt; let px ← parseFloat? px; let py ← parseFloat? py
+      let r := mkSquare (px, py) side
+      some (rectShape { r with pos := (px, py) } (Float.sqrt 2.0 * side / 2.0) (Circ.cisDeg rt), rest)
+  | "circle" :: r :: px :: py :: rest => do
+      let r ← parseFloat? r; let px ← parseFloat? px; let py ← parseFloat? py
+      some ({ pos := (px, py), radius := r, verts := place (px, py) (1.0, 0.0) (circleVerts r),
+              inside := circleInside (px, py) r,
+              border := fun d ratio => .ok (circleBorderPoint (px, py) r d ratio) }, rest)
+  | _ => none
+
+def pairs {α} : List α → Option (List (α × α))
+  | [] => some []
+  | a :: b :: t => (pairs t).map (fun r => (a, b) :: r)
+  | _ => none
+
+def showPt (p : Pt Float) : String := showFloat p.1 ++ "," ++ showFloat p.2
+def showPts (l : List (Pt Float)) : String := showList showPt l
+
+def parsePts? (s : String) : Option (List (Pt Float)) :=
+  if s == "-" then some [] else parseFloatList? s >>= pairs
+
+def handle (toks : List String) : String :=
+  match toks with
+  | "verts" :: rest => match parseShape rest with
+      | some (sh, []) => showPts sh.verts
+      | _ => "bad-op"
+  | "inside" :: rest => match parseShape rest with
+      | some (sh, [q]) => match parsePts? q with
+          | some qs => showList (fun p => if sh.inside p then "1" else "0") qs
+          | none => "bad-op"
+      | _ => "bad-op"
+  | "border" :: rest => match parseShape rest with
+      | some (sh, [ang, ratio]) => match parseFloat? ang, parseFloat? ratio with
+          | some ang, some ratio => match sh.border (Circ.cisDeg ang) ratio with
+              | .ok p => showPt p
+              | .error e => "error:" ++ toString e
+          | _, _ => "bad-op"
+      | _ => "bad-op"
+  | "borderuser" :: rest => match parseShape rest with
+      | some (sh, [ang, ratio]) => match parseFloat? ang, parseFloat? ratio with
+          | some ang, some ratio => match validateRatio ratio 1e-15 with
+              | .error e => "error:" ++ toString e
+              | .ok r => match sh.border (Circ.cisDeg ang) r with
+                  | .ok p => showPt p
+                  | .error e => "error:" ++ toString e
+          | _, _ => "bad-op"
+      | _ => "bad-op"
+  | "randuser" :: rest => match parseShape rest with
+      | some (sh, [ratio, us]) => match parseFloat? ratio, parsePts? us with
+          | some ratio, some us => match addRandomUser sh.inside sh.pos sh.radius ratio us with
+              | some (p, n) => showPt p ++ " " ++ toString n
+              | none => "none"
+          | _, _ => "bad-op"
+      | _ => "bad-op"
+  | "adduser" :: rest => match parseShape rest with
+      | some (sh, [q]) => match parsePts? q with
+          | some [p] => match addUser sh.inside p with
+              | .ok p => showPt p
+              | .error e => "error:" ++ toString e
+          | _ => "bad-op"
+      | _ => "bad-op"
+  | ["cluster", "hex", n, r, rt, px, py] =>
+      match n.toNat?, parseFloat? r, parseFloat? rt, parseFloat? px, parseFloat? py with
+      | some n, some r, some rt, some px, some py =>
+          showPts (clusterCentres (hexRaw r n) (Circ.cisDeg rt) (px, py))
+      | _, _, _, _, _ => "bad-op"
+  | ["cluster", "square", n, side, rt, px, py] =>
+      match n.toNat?, parseFloat? side, parseFloat? rt, parseFloat? px, parseFloat? py with
+      | some n, some side, some rt, some px, some py =>
+          match squareRaw side n with
+          | .ok raw => showPts (clusterCentres raw (Circ.cisDeg rt) (px, py))
+          | .error e => "error:" ++ toString e
+      | _, _, _, _, _ => "bad-op"
+  | ["distm", us, cs] => match parsePts? us, parsePts? cs with
+      | some us, some cs => showList (fun row => showList showFloat row) (distMatrix us cs) ";"
+      | _, _ => "bad-op"
+  | ["ppcircle", rmax, rmin, us, vs] =>
+      match parseFloat? rmax, parseFloat? rmin, parseFloatList? us, parseFloatList? vs with
+      | some rmax, some rmin, some us, some vs =>
+          showPts ((us.zip vs).map (fun uv => ppCirclePoint rmax rmin uv.1 uv.2))
+      | _, _, _, _ => "bad-op"
+  | ["pprect", w, h, us, vs] =>
+      match parseFloat? w, parseFloat? h, parseFloatList? us, parseFloatList? vs with
+      | some w, some h, some us, some vs =>
+          showPts ((us.zip vs).map (fun uv => ppRectPoint w h uv.1 uv.2))
+      | _, _, _, _ => "bad-op"
   | _ => "bad-op"
 
 def main : IO Unit := runDriver handle
